@@ -280,6 +280,8 @@ def check_genseq(case):
                     conn_opts += recs
                     # one record with several comma separated edges (ring closure / cross link between two blocks)
                     conn_opts.append([f"0:1:{sizes[0] - 1}-0,0-{sizes[1] - 1}"])
+                    # records that name the later block first (residue a then belongs to the later block)
+                    conn_opts += [[f"1:0:{a}-{b}"] for a in sorted({0, sizes[1] - 1}) for b in sorted({0, sizes[0] - 1}) if a != b]
                     if k == 3:
                         conn_opts.append([f"0:1:{sizes[0] - 1}-0", f"1:2:{sizes[1] - 1}-0"])
                         conn_opts.append([f"0:2:0-0,{sizes[0] - 1}-{sizes[2] - 1}", f"1:2:0-{sizes[2] - 1}"])
